@@ -24,9 +24,25 @@ func djump(pc ProgramCounter, a uint32, jumpTable JumpTable, bitmask Bitmask) (E
 		return ExitPanic, pc
 	}
 	index := a/ZA - 1 // GP,  if  ZA > 1, index = ZA*index
-	dest, _, err := ReadUintFixed(jumpTable.Data[index*jumpTable.Length:], int(jumpTable.Length))
+	// E_z(j): entries are z-byte little-endian naturals for any z in 0..255 (GP A.2). Read the
+	// low 8 bytes; an entry with a non-zero byte beyond them, or not below 2^32, cannot be a code
+	// index and so is not the start of a basic block.
+	start := uint64(index) * uint64(jumpTable.Length)
+	end := start + uint64(jumpTable.Length)
+	if end > uint64(len(jumpTable.Data)) {
+		return ExitPanic, pc
+	}
+	entry := jumpTable.Data[start:end]
+	dest, _, err := ReadUintFixed(entry, min(len(entry), 8))
 	if err != nil {
-		// jump-table entry width z > 8 (or a truncated table): not a valid target
+		return ExitPanic, pc
+	}
+	for _, b := range entry[min(len(entry), 8):] {
+		if b != 0 {
+			return ExitPanic, pc
+		}
+	}
+	if dest >= 1<<32 {
 		return ExitPanic, pc
 	}
 
